@@ -875,6 +875,43 @@ func (vc *FnVC) loopWrites(l *Loop) (set map[string]bool, all bool) {
 			}
 		}
 	}
+	// ghost updates attached to call / send / recv / map sites inside the loop
+	if vc.ct != nil && len(vc.ct.CallGhost) > 0 {
+		sites := map[string]bool{}
+		for b := range l.Blocks {
+			for _, in := range b.Instrs {
+				switch x := in.(type) {
+				case ssa.CallInstruction:
+					sites[calleeShort(x.Common())] = true
+					if bi, ok := x.Common().Value.(*ssa.Builtin); ok && bi.Name() == "delete" {
+						sites["delete:*"] = true
+					}
+					if fn, ok := x.Common().Value.(*ssa.Function); ok && fn.Pkg != nil && fn.Pkg.Pkg.Path() == "sync/atomic" {
+						sites["atomic.*"] = true
+					}
+				case *ssa.Send:
+					sites["send"] = true
+				case *ssa.UnOp:
+					if x.Op == token.ARROW {
+						sites["recv"] = true
+					}
+				case *ssa.MapUpdate:
+					sites["mapupdate:*"] = true
+				}
+			}
+		}
+		for _, g := range vc.ct.CallGhost {
+			hit := sites[g.Callee]
+			for _, pre := range []string{"delete:", "mapupdate", "atomic."} {
+				if strings.HasPrefix(g.Callee, pre) && (sites[pre+"*"] || sites["mapupdate:*"] && pre == "mapupdate") {
+					hit = true
+				}
+			}
+			if hit {
+				set["G$"+ghostTargetName(g.Upd.Target)] = true
+			}
+		}
+	}
 	// ghost updates of this loop and nested loops
 	for _, l2 := range vc.loops {
 		if l.Blocks[l2.Header] && l2.Contract != nil {
